@@ -299,9 +299,89 @@ def reset_globals():
     pddl_type.ObjectType.name = "object"
 
 
+def thread_body(kind, domain, objs, world, spec, call, st):
+    from pddl_plus_parser.models import Operator
+    from pddl_plus_parser.exporters import DomainExporter
+    name, args = call
+
+    def apply():
+        op = Operator(domain.actions[name], domain, list(args), objs)
+        return json.dumps(jstate(read_lib_state(op.apply(build_state(domain, world, st), allow_inapplicable_actions=True))))
+
+    def applicable():
+        return Operator(domain.actions[name], domain, list(args), objs).is_applicable(build_state(domain, world, st))
+
+    def export():
+        return DomainExporter().extract_domain(domain)
+
+    def ground_and_print():
+        op = Operator(domain.actions[name], domain, list(args), objs)
+        op.ground()
+        return [op.typed_action_call, str(domain.actions[name]), domain.actions[name].effects_to_pddl()]
+    return {"apply": apply, "applicable": applicable, "export": export, "print": ground_and_print}[kind]
+
+
+def check_threads(case, res):
+    """Two operations on one shared domain under the deterministic scheduler: each must return what
+    it returns when run alone, and the domain's digest must not change."""
+    from pv import sched
+    spec = case["specs"][0]
+    pddl.validate_domain(spec["dom"], spec["objects"])
+    ok, domain = parse_domain(spec["dom"])
+    if not ok:
+        res.skipped = "domain-parse-error(C01)"
+        return
+    world = pddl.World(spec["dom"], spec["objects"])
+    objs = lib_objects(domain, build_objects(domain, spec["objects"]))
+    bodies = []
+    for t in case["threads"]:
+        call = spec["calls"][t["c"] % len(spec["calls"])] if spec["calls"] else None
+        if call is None:
+            res.skipped = "no-call"
+            return
+        st = unjstate(spec["states"][t["s"] % len(spec["states"])])
+        a = pddl.find_action(spec["dom"], call[0])
+        if t["kind"] == "apply" and conflicting_ref(spec, a, call[1], st):
+            res.skipped = "conflicting-effects"
+            return
+        bodies.append(thread_body(t["kind"], domain, objs, world, spec, call, st))
+    before = digest_domain(domain)
+    alone = [lib_call(b) for b in bodies]
+    if digest_domain(domain) != before:
+        return   # a sequential purity defect: the history stream reports it
+    prefix = os.path.join(os.environ.get("PV_REPO", "/repo"), "pddl_plus_parser")
+    results, steps = sched.TwoThreadScheduler(case["switch"], prefix).run(bodies[0], bodies[1])
+    for i, (r, base) in enumerate(zip(results, alone)):
+        exp = ("ok", base[1]) if base[0] else ("exc", None)
+        if r[0] != exp[0] or (r[0] == "ok" and r[1] != exp[1]):
+            res.bad(f"C07/threads/result-differs-from-sequential/{case['threads'][i]['kind']}",
+                    {"threads": case["threads"], "switch": case["switch"], "thread": i, "alone": repr(base[1])[:500], "interleaved": repr(r[1])[:500],
+                     "domain": sexpr.flat(pddl.domain_tree(spec["dom"]))})
+            return
+    if digest_domain(domain) != before:
+        res.bad("C07/threads/domain-changed", {"threads": case["threads"], "switch": case["switch"]})
+    res.nontrivial = any(sp <= steps for sp in case["switch"])
+    res.classes = ["threads:" + "+".join(sorted(t["kind"] for t in case["threads"]))]
+    res.evals = 2
+
+
+def conflicting_ref(spec, a, args, st):
+    try:
+        world = pddl.World(spec["dom"], spec["objects"])
+        env = {p: o for (p, _), o in zip(a["params"], args)}
+        pddl.successor(a["eff"], env, st, world)
+        pddl.successor(S.k3_effect(a["eff"]), env, st, world)
+        return False
+    except (pddl.Conflict, pddl.Undefined, pddl.Ambiguous):
+        return True
+
+
 def check_case(case):
     res = Res()
     reset_globals()
+    if "threads" in case:
+        check_threads(case, res)
+        return res
     for spec in case["specs"]:
         pddl.validate_domain(spec["dom"], spec["objects"])
         w = pddl.validate_probes(spec["dom"], spec["objects"],
@@ -353,7 +433,17 @@ def gen(ch, tier):
     return {"specs": specs, "ops": ops}
 
 
+def gen_threads(ch, tier):
+    ft = G.feats(max_actions=2, max_leaves=1, p_when=0.4, p_forall_eff=0.8, nested=False, forall_pre=False, typed=True, typed_fixed=True)
+    spec = gen_spec(ch, ft)
+    kinds = ["apply", "apply", "apply", "applicable", "export", "print"]
+    threads = [{"kind": ch.choice(kinds), "c": ch.int(0, 7), "s": ch.int(0, 3)} for _ in range(2)]
+    n = ch.int(1, 4)
+    switch = sorted({ch.int(1, 400) for _ in range(n)})
+    return {"specs": [spec], "threads": threads, "switch": switch}
+
+
 def plan(tier):
     if tier == "quick":
-        return {"streams": {"main": 1200}, "shards": 16}
-    return {"streams": {"main": 20000}, "shards": 16}
+        return {"streams": {"main": 1200, "threads": 320}, "shards": 16}
+    return {"streams": {"main": 20000, "threads": 6000}, "shards": 16}
